@@ -44,6 +44,8 @@ COMPONENTS = {
     'fd': z3.ArraySort(I, SetF),
     'fv': z3.ArraySort(I, z3.ArraySort(F, I)),
     'refsets': z3.ArraySort(I, SetR),     # collections of references (generator of lists)
+    'fs_len': z3.ArraySort(I, I),                     # python lists of formulas: length
+    'fs_el': z3.ArraySort(I, z3.ArraySort(I, F)),     #                          elements by index
     'fld__next': z3.ArraySort(I, I),
     'fld__labels': z3.ArraySort(I, I),
     'fld_S0': z3.ArraySort(I, I),
@@ -104,11 +106,12 @@ class Heap(object):
         return self.alloc, self.with_(alloc=self.alloc + 1)
 
 
-def same_below(h0, h1, bound, comps=None, except_sets=None):
+def same_below(h0, h1, bound, comps=None, except_sets=None, named=False):
     """frame: every component entry with reference < bound is unchanged
     (except_sets: z3 predicate on refs exempting some set refs)"""
     r = z3.Int('r!frame')
     out = []
+    names = []
     for k in (comps or COMPONENTS.keys()):
         if z3.eq(h0[k], h1[k]):
             continue
@@ -116,6 +119,9 @@ def same_below(h0, h1, bound, comps=None, except_sets=None):
         if k == 'sets' and except_sets is not None:
             cond = z3.And(cond, z3.Not(except_sets(r)))
         out.append(z3.ForAll([r], z3.Implies(cond, h0[k][r] == h1[k][r])))
+        names.append(k)
+    if named:
+        return list(zip(names, out))
     return out
 
 
@@ -155,7 +161,7 @@ def sv_ref(ty, t):
     return SV(ty, t)
 
 
-REF_TYPES = ('set', 'list', 'pairlist', 'dict', 'fdict', 'graph', 'kripke', 'keys', 'reflist')
+REF_TYPES = ('set', 'list', 'pairlist', 'dict', 'fdict', 'graph', 'kripke', 'keys', 'reflist', 'fseq')
 
 
 class Coll(object):
@@ -163,13 +169,15 @@ class Coll(object):
     mem = z3 array (SetH / Rel / SetR / SetF); distinct = elements are visited
     at most once; src = (component, ref) of the heap container it aliases or None"""
 
-    def __init__(self, kind, mem, distinct, src=None, elem_ty=None, pair_second=None):
+    def __init__(self, kind, mem, distinct, src=None, elem_ty=None, pair_second=None, length=None, elem=None):
         self.kind = kind
         self.mem = mem
         self.distinct = distinct
         self.src = src
         self.elem_ty = elem_ty
         self.pair_second = pair_second   # for dict.items(): 'setref' (value is the dict's set ref)
+        self.length = length             # kind 'seq': z3 Int length, visited positionally in order
+        self.elem = elem                 # kind 'seq': j -> SV
 
 
 def empty_set():
